@@ -105,12 +105,26 @@ enum Class {
 struct Req {
     body: Vec<u8>,
     ctype: Option<String>,
+    /// actix app configuration for the JSON extractor: 0 none, 1 small limit, 2 content type not required,
+    /// 3 extra content-type predicate (text/plain accepted)
+    cfg: u8,
+    /// a Content-Length header that declares more than is sent
+    declared_len: Option<usize>,
 }
 
 fn actix_req(r: &Req) -> (actix_web::HttpRequest, actix_web::dev::Payload) {
     let mut t = actix_web::test::TestRequest::post().uri("/x");
     if let Some(ct) = &r.ctype {
         t = t.insert_header(("content-type", ct.as_str()));
+    }
+    if let Some(n) = r.declared_len {
+        t = t.insert_header(("content-length", n.to_string()));
+    }
+    match r.cfg {
+        1 => t = t.app_data(actix_web::web::JsonConfig::default().limit(24)),
+        2 => t = t.app_data(actix_web::web::JsonConfig::default().content_type_required(false)),
+        3 => t = t.app_data(actix_web::web::JsonConfig::default().content_type(|m| m.type_() == "text" && m.subtype() == "plain")),
+        _ => {}
     }
     t.set_payload(r.body.clone()).to_http_parts()
 }
@@ -314,7 +328,15 @@ fn decode(case: &Case) -> Option<(String, Req)> {
         PV::Seq(s) => s.iter().filter_map(|b| if let PV::Int(i) = b { Some(*i as u8) } else { None }).collect(),
         _ => return None,
     };
-    Some((kind, Req { body, ctype }))
+    let cfg = match get("cfg") {
+        Some(PV::Int(i)) => *i as u8,
+        _ => 0,
+    };
+    let declared_len = match get("declared_len") {
+        Some(PV::Int(i)) => Some(*i as usize),
+        _ => None,
+    };
+    Some((kind, Req { body, ctype, cfg, declared_len }))
 }
 
 thread_local! {
@@ -371,6 +393,15 @@ fn test(case: &Case, stats: Option<&mut Stats>) -> Verdict {
     };
     if let Some(st) = stats {
         st.executions += 2 * results.len() as u64;
+        if req.cfg != 0 {
+            st.class("actix JsonConfig in app data");
+        }
+        if req.declared_len.is_some() {
+            st.class("declared Content-Length above the limit");
+        }
+        if req.body.len() > 2 * 1024 * 1024 {
+            st.class("body above 2 MiB");
+        }
         for (which, _, want, class) in &results {
             st.class(&format!("{which}: {class:?}"));
             let nested = matches!(want, Obs::Ok(_)) && case.payload.size() > 40;
@@ -380,7 +411,7 @@ fn test(case: &Case, stats: Option<&mut Stats>) -> Verdict {
         }
         if st.want_sample() {
             st.samples.push(json!({"target": if kind == "query" { "QSearch" } else { TARGETS[t] }, "kind": kind, "content_type": req.ctype,
-                "body": String::from_utf8_lossy(&req.body), "observed": results.iter().map(|(w, g, _, c)| json!({"extractor": w, "class": format!("{c:?}"), "outcome": show(g)})).collect::<Vec<_>>()}));
+                "body": String::from_utf8_lossy(&req.body[..req.body.len().min(300)]), "body_len": req.body.len(), "observed": results.iter().map(|(w, g, _, c)| json!({"extractor": w, "class": format!("{c:?}"), "outcome": show(g)})).collect::<Vec<_>>()}));
         }
     }
     for (which, got, want, class) in &results {
@@ -394,7 +425,7 @@ fn test(case: &Case, stats: Option<&mut Stats>) -> Verdict {
             return Verdict::Violation(
                 format!("C20|{which}|{aspect}|{class:?}"),
                 json!({"what": format!("{which}: extractor gave {} but the framework's own extractor composed with deserr::deserialize gives {}", show(got), show(want)),
-                       "content_type": req.ctype, "body": String::from_utf8_lossy(&req.body)}),
+                       "content_type": req.ctype, "cfg": req.cfg, "declared_len": req.declared_len, "body_len": req.body.len(), "body": String::from_utf8_lossy(&req.body[..req.body.len().min(400)])}),
             );
         }
     }
@@ -468,9 +499,33 @@ fn gen() -> GenFn {
             };
             ("json", text, ctype.map(|s| s.to_string()))
         };
+        let body: Vec<u8> = body;
         let mut m = vec![("kind".to_string(), PV::str(kind))];
         if let Some(c) = ctype {
             m.push(("ctype".to_string(), PV::Str(c)));
+        }
+        let mut body = body;
+        if kind == "json" {
+            // app-level configuration of the framework's JSON extractor (both sides get the same)
+            match g.below(8) {
+                0 => m.push(("cfg".to_string(), PV::Int(1))),
+                1 => m.push(("cfg".to_string(), PV::Int(2))),
+                2 => m.push(("cfg".to_string(), PV::Int(3))),
+                _ => {}
+            }
+            // a declared length above the framework's limit, with a small body
+            if g.below(60) == 0 {
+                m.push(("declared_len".to_string(), PV::Int(3_000_000)));
+            }
+            // a body above the frameworks' default 2 MiB limit (a long JSON string)
+            if g.below(1500) == 0 {
+                let n = 2 * 1024 * 1024 + 64 + g.below(4096);
+                let mut big = Vec::with_capacity(n + 2);
+                big.push(b'"');
+                big.resize(n + 1, b'a');
+                big.push(b'"');
+                body = big;
+            }
         }
         m.push(("body".to_string(), PV::Seq(body.into_iter().map(|b| PV::Int(b as u64)).collect())));
         Case { ty: t, payload: PV::Map(m), script: Script::all_continue(), aux: 0, faults: 0 }
